@@ -682,6 +682,47 @@ func (c *Ctx) c12Maps() {
 				kex, ok1 := k.(*ssa.Extract)
 				vex, ok2 := v.(*ssa.Extract)
 				ok = ok1 && ok2 && kex.Index == 0 && vex.Index == 0
+				// the pair may be read by a step of its own (readClientParameter(reader) (key, value string, err error)): its
+				// pair-returns hand back two consecutive successful GetString results, every other return is an error or the
+				// empty terminator key
+				if ok1 && ok2 && kex.Tuple == vex.Tuple && kex.Index != vex.Index {
+					if hc, isCall := kex.Tuple.(*ssa.Call); isCall {
+						if h := core.StaticCallee(hc); h != nil && c.P.InPkg(h, "wire") && h.Blocks != nil {
+							R.Analysed(fname(h))
+							ei := core.ErrorResultIndex(h.Signature)
+							okH := ei >= 0 && anyDominates(nilEdges(resultOf(hc, ei), true), mu.Block())
+							pairs := 0
+							for _, r := range returns(h) {
+								if !okH || len(r.Results) <= kex.Index || len(r.Results) <= vex.Index {
+									okH = false
+									break
+								}
+								kx, isK := core.Strip(r.Results[kex.Index]).(*ssa.Extract)
+								vx, isV := core.Strip(r.Results[vex.Index]).(*ssa.Extract)
+								if isK && isV && kx.Index == 0 && vx.Index == 0 {
+									kc, okk := kx.Tuple.(*ssa.Call)
+									vc, okv := vx.Tuple.(*ssa.Call)
+									if okk && okv && kc != vc && isReaderMethod(kc, "GetString") && isReaderMethod(vc, "GetString") && core.InstrDominates(kc, vc) &&
+										anyDominates(nilEdges(resultOf(kc, 1), true), r.Block()) && anyDominates(nilEdges(resultOf(vc, 1), true), r.Block()) {
+										pairs++
+										continue
+									}
+									okH = false
+									continue
+								}
+								if c.Err().Classify(r.Results[ei], r.Block()).NeverNil() {
+									continue
+								}
+								if sv, isS := core.ConstString(r.Results[kex.Index]); isS && sv == "" {
+									continue
+								}
+								okH = false
+							}
+							R.Check(okH && pairs > 0, "C12.R4", "readClientParameters:pair-as-read", c.at(mu), "each start-up key/value pair is stored exactly as read (key = first string, value = the next string, both read successfully)", "key and value are results of "+fkey(h)+", whose pair-returns hand back two consecutive successful GetString results", "the step "+fkey(h)+" does not hand back two consecutive successful GetString results as the pair")
+							continue
+						}
+					}
+				}
 				if ok {
 					kc, okk := kex.Tuple.(*ssa.Call)
 					vc, okv := vex.Tuple.(*ssa.Call)
